@@ -135,18 +135,26 @@ class World:
                 dargs.append(self.dist2 if cfg["dist"] is not None else None)
             mk = lambda: cls(*dargs)  # noqa
 
-        def go():
+        def build():
             dec = mk()
             if cfg.get("via_toolbox"):
                 from deap import base
                 tb = base.Toolbox()
                 tb.register("evaluate", self.evaluate)
                 tb.decorate("evaluate", dec)
-                f = tb.evaluate
-            else:
-                f = dec(self.evaluate)
-            return f(self.ind0, *cfg["args"], **cfg["kwargs"])
-        return vlib.guarded(go)
+                return tb.evaluate
+            return dec(self.evaluate)
+        b = vlib.guarded(build)
+        if b[0] != "ok":
+            return [(b, list(self.log))]
+        f = b[1]
+        runs = []
+        for _ in range(2 if cfg.get("call_twice") else 1):
+            # the decorated function is stateless: a second call must behave like the first
+            del self.log[:]
+            out = vlib.guarded(lambda: f(self.ind0, *cfg["args"], **cfg["kwargs"]))
+            runs.append((out, list(self.log)))
+        return runs
 
 
 def sign_expected(w):
@@ -173,10 +181,9 @@ def comp(v, k):
     return v[k] if isinstance(v, (list, tuple)) else v
 
 
-def oracle(cfg, world, out):
+def oracle(cfg, world, out, log):
     """The property statement, evaluated on the returned value and the recorded calls.  Returns failures."""
     bad = []
-    log = world.log
     evals = [e for e in log if e[0] == "eval"]
     want_extra = (tuple(cfg["args"]), dict(cfg["kwargs"]))
     if cfg["feasible"]:
@@ -276,7 +283,7 @@ def base_cfg(rng, kind, w, feasible, delta_shape, dist_shape, alpha=None, extra=
            "e0": [dy(rng) for _ in range(n)],
            "args": (), "kwargs": {}, "alias": rng.random() < 0.5, "via_toolbox": rng.random() < 0.15,
            "seq_as_tuple": rng.random() < 0.7, "explicit_none": rng.random() < 0.3,
-           "creator": rng.random() < 0.5}
+           "creator": rng.random() < 0.5, "call_twice": rng.random() < 0.2}
     a, k = extra if extra is not None else rng.choice(ARGSETS)
     cfg["args"], cfg["kwargs"] = tuple(a), dict(k)
     if rng.random() < 0.3:   # integer-valued numbers (Python ints)
@@ -324,7 +331,7 @@ def main(run):
     run.rule = ("exhaustive: 1..4 objectives x every weight-sign vector x {scalar, per-objective} constant x {absent, scalar, "
                 "per-objective} distance x {feasible, infeasible} x both decorators (3 alphas), numbers drawn from dyadic grids; "
                 "random: 1..4 objectives (some 0, 5, 6), weights of any sign/magnitude incl. 0.0 and -0.0, int and float numbers, "
-                "tuple/list sequences, truthy/falsy feasibility values, extra positional and keyword arguments, both class-name "
+                "tuple/list sequences, truthy/falsy feasibility values, a second call of the same decorated function (20%),  extra positional and keyword arguments, both class-name "
                 "spellings, direct decoration and Toolbox.decorate, creator-made and plain individuals; every infeasible case is "
                 "paired with the same case under a distance at least as large (monotonicity); out-of-scope sizes (zip truncation, "
                 "IndexError, TypeError) are tied by correspondence only. A case is distinct by its full configuration; "
@@ -407,8 +414,7 @@ def main(run):
 
     def execute(cfg):
         world = World(constraint, cfg, lambda w, tag: mkind(w, tag, cfg.get("creator", False)))
-        out = world.run()
-        return world, out
+        return world, world.run()
 
     def describe(cfg, out, log):
         d = dict(cfg)
@@ -418,25 +424,28 @@ def main(run):
         return d
 
     def one(cfg, collect=True):
-        world, out = execute(cfg)
-        case = describe(cfg, out, world.log)
+        world, runs = execute(cfg)
         nontrivial = (not cfg["feasible"] and cfg["dist"] is not None) or (cfg["feasible"] and (cfg["args"] or cfg["kwargs"]))
-        run.note_case({k: v for k, v in case.items() if k not in ("observed", "calls")}, nontrivial,
-                      sample=case if (run.evaluations % 211 == 3) else None)
-        for b in oracle(cfg, world, out):
-            run.oracle_violation(b, case, observed=case["observed"])
+        for nth, (out, log) in enumerate(runs):
+            case = describe(cfg, out, log)
+            case["call_number"] = nth + 1
+            run.note_case({k: v for k, v in case.items() if k not in ("observed", "calls")}, nontrivial,
+                          sample=case if (run.evaluations % 211 == 3) else None)
+            for b in oracle(cfg, world, out, log):
+                run.oracle_violation(b if nth == 0 else "second call of the same decorated function: " + b, case,
+                                     observed=case["observed"])
+            if out[0] == "raise":
+                stats["raised"] += 1
+            if collect:
+                terms.append(case_term(cfg, out, log))
+                cases.append(case)
         if cfg["feasible"]:
             stats["feasible"] += 1
         elif in_scope(cfg):
             stats["infeasible"] += 1
         else:
             stats["out_of_scope"] += 1
-        if out[0] == "raise":
-            stats["raised"] += 1
-        if collect:
-            terms.append(case_term(cfg, out, world.log))
-            cases.append(case)
-        return out
+        return runs[0][0]
 
     def with_partner(cfg, collect=True):
         out = one(cfg, collect)
@@ -508,9 +517,9 @@ def main(run):
         one(cfg, collect)
 
     exhaustive()
-    for _ in range(run.scale(600, 6000)):
+    for _ in range(run.scale(600, 4000)):
         random_case()
-    for _ in range(run.scale(200, 1500)):
+    for _ in range(run.scale(200, 1000)):
         out_of_scope_case()
     if run.thorough:
         exhaustive()      # a second sweep with fresh numbers
